@@ -57,11 +57,15 @@ theorem stopsM_trimLeft : StopsM trimLeftM := by
 
 theorem stopsM_trimRight : StopsM trimRightM := fun _ => .ret _
 
+theorem stopsM_writeVerbatim (b : Bytes) : StopsM (writeVerbatimM b) := by
+  unfold writeVerbatimM
+  exact stopsM_bind (stopsM_write _) (fun _ => stopsM_bind (stopsM_write b) (fun _ => stopsM_flush))
+
 theorem stopsM_writeAll : ∀ cs, StopsM (writeAllM cs)
   | [] => stopsM_pure ()
   | c :: cs => by
     unfold writeAllM
-    exact stopsM_bind (stopsM_write c) (fun _ => stopsM_writeAll cs)
+    exact stopsM_bind (stopsM_writeVerbatim c) (fun _ => stopsM_writeAll cs)
 
 /-- capture and include run their inner program against an in-memory writer: no call reaches
     the caller's writer from inside them -/
@@ -211,7 +215,7 @@ theorem stops_renderNode (c : RCtx) (hc : IncOk c) : ∀ n : Node, StopsM (rende
     refine stopsM_wrapFailAt _ _ (stopsM_bind (stopsM_getVar _) (fun lv => ?_))
     split
     · exact stopsM_fail _
-    · exact stopsM_bind (stopsM_setVar _ _) (fun _ => stopsM_bind (stopsM_write _) (fun _ => stopsM_pure _))
+    · exact stopsM_bind (stopsM_setVar _ _) (fun _ => stopsM_bind (stopsM_writeVerbatim _) (fun _ => stopsM_pure _))
   | .brk line => by unfold renderNode; exact stopsM_pure _
   | .cont line => by unfold renderNode; exact stopsM_pure _
   | .incl line args => by
@@ -225,7 +229,7 @@ theorem stops_renderNode (c : RCtx) (hc : IncOk c) : ∀ n : Node, StopsM (rende
         exact Stops.bind (hc _ _ _) (fun _ => .ret _)
       · obtain ⟨st, out⟩ := r
         cases st with
-        | done => exact stopsM_bind (stopsM_write _) (fun _ => stopsM_pure _)
+        | done => exact stopsM_bind (stopsM_writeVerbatim _) (fun _ => stopsM_pure _)
         | brk e => exact stopsM_pure _
         | cont e => exact stopsM_pure _
     · exact stopsM_fail _
